@@ -266,6 +266,9 @@ type metaStep struct {
 	Dif       []string    `json:"dif"`
 	Select    []string    `json:"select"`
 	Files     []treeEntry `json:"files"`
+	From      []treeEntry `json:"from"`
+	Keys      []string    `json:"keys"`
+	Skip      bool        `json:"skip"`
 	Post      postState   `json:"post"`
 }
 
@@ -343,6 +346,21 @@ func (m *metaRun) doStep(st metaStep) {
 		if st.Op == "uploadcrash" && !ctl.Crashed() {
 			m.bad("driver/crash-not-reached", nil, errString(err), "the crash point was not reached")
 		}
+	case "uploadkeys":
+		src, _ := e.writeTree(st.Tree, 0)
+		b := e.newBundle(stores, st.Repo, e.ksuidFor(st.ID), src)
+		b.SkipOnError = st.Skip
+		keys := st.Keys
+		err := core.UploadSpecificKeys(ctx, b, func() ([]string, error) { return keys, nil })
+		got := "ok"
+		if err != nil {
+			got = "error"
+		}
+		if got != st.Res {
+			m.bad("uploadkeys/result", st.Res, errString(err), fmt.Sprintf("keys=%v skip=%v", keys, st.Skip))
+		}
+	case "update":
+		m.update(stores, st)
 	case "setlabel":
 		b := e.newBundle(stores, st.Repo, e.ksuidFor(st.Bundle), nil)
 		l := core.NewLabel(core.LabelDescriptor(model.NewLabelDescriptor(model.LabelName(st.Name),
@@ -500,6 +518,92 @@ func (m *metaRun) download(stores context2.Stores, id int, sel []string, files [
 		}
 	}
 	_ = os.RemoveAll(dir)
+}
+
+// readDir returns the data files and the .datamon metadata files of a directory.
+func readDir(dir string) (files, metaFiles map[string][]byte) {
+	files, metaFiles = map[string][]byte{}, map[string][]byte{}
+	_ = filepath.Walk(dir, func(p string, info os.FileInfo, err error) error {
+		if err != nil || info.IsDir() {
+			return nil
+		}
+		rel, _ := filepath.Rel(dir, p)
+		rel = filepath.ToSlash(rel)
+		b, _ := ioutil.ReadFile(p)
+		switch {
+		case strings.HasPrefix(rel, ".datamon/"):
+			metaFiles[rel] = b
+		case strings.HasPrefix(rel, "bulk/"):
+			// filler files are compared by count in the projection only
+		default:
+			files[rel] = b
+		}
+		return nil
+	})
+	return
+}
+
+// update downloads bundle a, updates the directory in place to bundle b and
+// compares it with a fresh download of b (data and metadata).
+func (m *metaRun) update(stores context2.Stores, st metaStep) {
+	e := m.e
+	ctx := context.Background()
+	repo := m.repoOf(st.A)
+	dir := e.scratch("upd")
+	ba := e.newBundle(stores, repo, e.ksuidFor(st.A), localStore(dir))
+	if err := core.Publish(ctx, ba); err != nil {
+		m.bad("update/download-error", "ok", err.Error(), "")
+		return
+	}
+	local := core.NewBundle(core.ConsumableStore(localStore(dir)), core.Logger(zap.NewNop()))
+	remote := e.newBundle(stores, repo, e.ksuidFor(st.B), nil)
+	if err := core.Update(ctx, remote, local); err != nil {
+		m.bad("update/error", "ok", err.Error(), fmt.Sprintf("#%d -> #%d", st.A, st.B))
+		return
+	}
+	fresh := e.scratch("fresh")
+	bb := e.newBundle(stores, repo, e.ksuidFor(st.B), localStore(fresh))
+	if err := core.Publish(ctx, bb); err != nil {
+		m.bad("update/download-error", "ok", err.Error(), "")
+		return
+	}
+	gotF, gotM := readDir(dir)
+	expF, expM := readDir(fresh)
+	what := fmt.Sprintf("update #%d -> #%d", st.A, st.B)
+	for p, eb := range expF {
+		gb, ok := gotF[p]
+		if !ok {
+			m.bad("update/missing-file", p, nil, what)
+		} else if !bytes.Equal(gb, eb) {
+			m.bad("update/stale-bytes", len(eb), len(gb), what+" "+p)
+		}
+	}
+	for p := range gotF {
+		if _, ok := expF[p]; !ok {
+			m.bad("update/file-not-removed", nil, p, what)
+		}
+	}
+	for p, eb := range expM {
+		if gb, ok := gotM[p]; !ok || !bytes.Equal(gb, eb) {
+			m.bad("update/metadata-missing", p, ok, what)
+		}
+	}
+	for p := range gotM {
+		if _, ok := expM[p]; !ok {
+			m.bad("update/stale-metadata", nil, p, what)
+		}
+	}
+	// and against the specification's tree of b
+	for _, f := range st.Files {
+		if gb, ok := gotF[f.P]; !ok || !bytes.Equal(gb, e.contentBytes(f.C)) {
+			m.bad("update/wrong-content", f.P, ok, what)
+		}
+	}
+	if len(gotF) != len(st.Files) {
+		m.bad("update/file-count", len(st.Files), len(gotF), what)
+	}
+	_ = os.RemoveAll(dir)
+	_ = os.RemoveAll(fresh)
 }
 
 // ---------------------------------------------------------------- projection
@@ -945,7 +1049,7 @@ func metaReplay(args []string) error {
 				return
 			}
 			curPost = &stc.Post
-			if st.Op != "diff" && st.Op != "download" {
+			if st.Op != "diff" && st.Op != "download" && st.Op != "update" {
 				muts++
 				if vutil.Guard(r, j, st.Op+"/compare", nil, func() { m.compare(stc); m.observe(stc) }) {
 					return
@@ -990,6 +1094,10 @@ func compactSteps(steps []metaStep) interface{} {
 	var out []string
 	for _, s := range steps {
 		switch s.Op {
+		case "uploadkeys":
+			out = append(out, fmt.Sprintf("uploadkeys(%s,#%d,keys=%v,skip=%v)=%s", s.Repo, s.ID, s.Keys, s.Skip, s.Res))
+		case "update":
+			out = append(out, fmt.Sprintf("update(#%d->#%d)", s.A, s.B))
 		case "upload", "uploadcrash":
 			var names []string
 			for _, t := range s.Tree {
